@@ -177,9 +177,9 @@ class SO2(SMPose):
             - if `x` contains a sequence, returns an `SO2` with a sequence of inverses
         """
         if len(self) == 1:
-            return SO2(self.A.T)
+            return SO2(self.A.T, check=False)
         else:
-            return SO2([x.T for x in self.A])
+            return SO2([x.T for x in self.A], check=False)
 
     @property
     def R(self):
@@ -464,9 +464,9 @@ class SE2(SO2):
 
         """
         if len(self) == 1:
-            return SE2(tr.rt2tr(self.R.T, -self.R.T @ self.t))
+            return SE2(tr.rt2tr(self.R.T, -self.R.T @ self.t), check=False)
         else:
-            return SE2([tr.rt2tr(x.R.T, -x.R.T @ x.t) for x in self])
+            return SE2([tr.rt2tr(x.R.T, -x.R.T @ x.t) for x in self], check=False)
 
     def SE3(self, z=0):
         """
